@@ -81,6 +81,10 @@ def oracle(ck, extended):
     for _ in range(2 if q else 12):
         b, s = rng.choice(pairs)
         rt.guard(ck, oracle_fwd_converted, ck, b, s, rng.randint(1, 3), gen.float_tensor(ck.nprng, (1, 2, rng.randint(4, 24), rng.randint(4, 24))))
+    for b in OD.BIORTS:                                  # the smallest images with every level-1 family
+        for (H, W) in [(2, 2), (2, 11), (7, 3), (8, 8)]:
+            s = rng.choice(OD.QSHIFTS); bt, qt = OD.lib_tables(b, s)
+            rt.guard(ck, oracle_fwd, ck, b, s, bt, qt, rng.randint(1, 3), gen.float_tensor(ck.nprng, (1, 1, H, W)), '%s/%s' % (b, s))
     for (H, W, J) in [(2, 2, 3), (4, 4, 4), (3, 5, 4), (8, 8, 5), (6, 2, 3)]:      # deeper than the image is large
         b, s = rng.choice(pairs); bt, qt = OD.lib_tables(b, s)
         rt.guard(ck, oracle_fwd, ck, b, s, bt, qt, J, gen.float_tensor(ck.nprng, (1, 2, H, W)), '%s/%s' % (b, s))
